@@ -276,6 +276,72 @@ fn check_ast(ast: &Ast, st: &mut Stats) {
         }
     }
 
+    // 2b. the same with names of other shapes (namespaces, dots, underscores), written through the mutable
+    // iterators: functions unknown while every variable is bound, then variables unknown while every
+    // function is defined; the error must carry exactly a name the iterators list
+    {
+        let mut vn: Vec<String> = Vec::new();
+        for n in names(&occ, &[Cls::Read, Cls::Write]) {
+            if !vn.contains(&n) {
+                vn.push(n);
+            }
+        }
+        let mut fnn: Vec<String> = Vec::new();
+        for n in names(&occ, &[Cls::Func]) {
+            if !fnn.contains(&n) {
+                fnn.push(n);
+            }
+        }
+        for shape in ["math::u{}", "str::u{}", "ns::deep::u{}", "u{}.x", "_u{}", "u{}::"] {
+            let shaped = |i: usize| shape.replace("{}", &i.to_string());
+            for functions in [true, false] {
+                let pool = if functions { &fnn } else { &vn };
+                if pool.is_empty() {
+                    continue;
+                }
+                let mut t = tree.clone();
+                if functions {
+                    for id in t.iter_function_identifiers_mut() {
+                        if let Some(i) = pool.iter().position(|p| p == id) {
+                            *id = shaped(i);
+                        }
+                    }
+                } else {
+                    for id in t.iter_variable_identifiers_mut() {
+                        if let Some(i) = pool.iter().position(|p| p == id) {
+                            *id = shaped(i);
+                        }
+                    }
+                }
+                let ctx = if functions { base_context(&vn, &[], None) } else { base_context(&[], &fnn, None) };
+                let listed: Vec<String> = (0..pool.len()).map(shaped).collect();
+                let mut c = ctx.clone();
+                match guarded(|| t.eval_with_context_mut(&mut c)) {
+                    Err(p) => {
+                        st.violation(mk("panic", "evaluation returns".into(), format!("panic at {}: {}", p.location, p.message)));
+                        return;
+                    },
+                    Ok(r) => {
+                        st.evaluations += 1;
+                        st.count("shaped-name-evaluations");
+                        let bad = match &r {
+                            Err(EvalexprError::FunctionIdentifierNotFound(n)) => !functions || !listed.contains(n),
+                            Err(EvalexprError::VariableIdentifierNotFound(n)) => functions || !listed.contains(n),
+                            _ => false,
+                        };
+                        if bad {
+                            st.violation(Violation {
+                                input: json!({"source": src, "ast": want.show(), "renamed": if functions {"functions"} else {"variables"}, "to": listed}),
+                                ..mk("unknown-identifier-not-listed", format!("an unknown-identifier error names one of {:?}", listed), format!("{:?}", r))
+                            });
+                            return;
+                        }
+                    },
+                }
+            }
+        }
+    }
+
     // 3. renaming invariance: swap two names through the mutable iterators and in the context
     let mut var_names: Vec<String> = Vec::new();
     for n in names(&occ, &[Cls::Read, Cls::Write]) {
@@ -510,7 +576,7 @@ pub fn run(cfg: &Cfg) -> Report {
     Report {
         property: ID,
         level: "exploration",
-        rule: format!("every AST with <= {k} operator nodes over the full operator alphabet (identifiers in every leaf, assignment-target and function position, named in source order) plus {nseq} sequence-shaped ASTs (`,`/`;` skeletons with <= {seq_n} separators over 13 element shapes incl. absent elements, `()`, nested sequences); per AST: 5 immutable + 5 mutable iterators against the occurrence list of the AST, every consumption style (for_each/fold, last, count, nth after 0..3 calls of next()) against next(), unknown-identifier errors against the lists, and every swap of two variable names / two function names / a name with a fresh name / a name with a name in use in the other namespace applied through the mutable iterators and to the context. Plus scaling families (sums, products, tuples, call arguments, call chains, assignment chains, prefix chains, statement sequences with n identifiers for every n in 1..20 and up to 129 / 1..40 and up to 400). Non-trivial = at least two identifier occurrences; distinct by normalised tree"),
+        rule: format!("every AST with <= {k} operator nodes over the full operator alphabet (identifiers in every leaf, assignment-target and function position, named in source order) plus {nseq} sequence-shaped ASTs (`,`/`;` skeletons with <= {seq_n} separators over 13 element shapes incl. absent elements, `()`, nested sequences); per AST: 5 immutable + 5 mutable iterators against the occurrence list of the AST, every consumption style (for_each/fold, last, count, nth after 0..3 calls of next()) against next(), unknown-identifier errors against the lists (also after renaming all functions, or all variables, to names with namespaces, dots and underscores), and every swap of two variable names / two function names / a name with a fresh name / a name with a name in use in the other namespace applied through the mutable iterators and to the context. Plus scaling families (sums, products, tuples, call arguments, call chains, assignment chains, prefix chains, statement sequences with n identifiers for every n in 1..20 and up to 129 / 1..40 and up to 400). Non-trivial = at least two identifier occurrences; distinct by normalised tree"),
         nontrivial_set: "nontrivial",
         exhaustive: true,
         bound_completed: format!("AST size {k}; sequences with {seq_n} separators"),
